@@ -84,6 +84,28 @@ Subset extensions used there:
   (`LIMBS >= 1`) are `decide`d on `Nat`; a function with assertions cannot be called from another translated function
   (its panic would be lost), an `assert!` anywhere else is outside the subset;
   `arr[i].0 = e` / `arr[i].0 op= e` (the word inside limb `i`): `arr[i] = Limb(e)` / `arr[i] = Limb(arr[i].0 op e)`.
+Fifth unit group (round 4; written to lean/CB/Gen/MulRows.lean, imports CB.Gen.Chains): the multiplication rows —
+`impl Limb { saturating_mul, wrapping_mul, mul_wide }` (src/limb/mul.rs; namespace CB.Gen.MulRows.Limb; `Limb::mac` is in the
+Chains unit) and the slice function `schoolbook_multiplication` of src/uint/mul.rs (namespace CB.Gen.MulRows;
+`schoolbook_squaring` is wanted too and reported `missing` until `Limb::shr` / `Limb::overflowing_add` are in a unit).
+Subset extensions used there:
+  slices `&[Limb]` / `&mut [Limb]`: the list of the limbs, `s.len()` is `s.length` (a `Nat`);
+  a `const fn` WITHOUT a return type (unit option `private='any'`) that has `&mut [Limb]` parameters RETURNS the final values
+  of those parameters (a tuple in parameter order) — the standard functional translation of in-place updates;
+  a guard `if cond { panic!(".."); }` of such a function is dropped and recorded as a comment in the generated definition:
+  the negated condition is a PRECONDITION, stated by the bridge theorems (`lo.len() == lhs.len()`, `hi.len() == rhs.len()`);
+  NESTED `while` loops of the fourth form: an inner loop becomes an auxiliary definition of its own, emitted before and called
+  from the outer loop's auxiliary definition (`<fn>_loop1` = outer, `<fn>_loop2` = inner); the inner bound may be `s.len()` or
+  the outer counter; after a loop from 0 with step 1 the counter is the bound (`i + j` after the inner loop is `i + rhs.len()`);
+  the state of a loop = every outer variable assigned at any depth of its body (the body's own `let`s are local);
+  index arithmetic on `Nat`: `let k = i + j;`, `+`, `*` and `-` (truncated: equal to `usize` wherever Rust does not overflow,
+  e.g. `k - lhs.len()` under `k >= lhs.len()`), comparisons of indices;
+  an `if c { .. } else { .. }` STATEMENT (also `else if`): a conditional update of every outer variable one of the branches
+  assigns — `let p := (if c then (<lets> (state..)) else (<lets> (state..)))`, then the variables are re-bound to the
+  components; an index comparison is the `Nat` proposition itself (`k ≥ lhs.length`), a `bool` is `b = true`;
+  destructuring assignment `(lv, lv, ..) = e;` with targets `x`, `arr[i]`, `arr[i].0`, `_` (right-hand side first, targets
+  left to right); `u64::saturating_mul` (the double-width product has a zero high half, else MAX);
+  methods of `Limb` are looked up in the Chains unit first, then in the units listed under `limb_more`.
 """
 import os, re, sys, json
 
@@ -393,6 +415,8 @@ class P:
                     raise Unsupported('loop body ends in an expression')
                 self.eat('op', '}')
                 stmts.append(('while', cond, body))
+            elif tok == ('id', 'if'):
+                stmts.append(self.if_())
             elif tok[0] == 'id' and self.peek(1)[0] == 'op' and self.peek(1)[1] in ASSIGN_OPS:
                 name = self.eat()[1]
                 op = self.eat()[1]
@@ -405,7 +429,38 @@ class P:
                 e = self.expr()
                 if self.at_end():
                     return stmts, e
+                if e[0] == 'tuple' and self.at('='):
+                    # destructuring assignment `(lv, lv) = e;` (lv: a variable, `arr[i]`, `arr[i].0`, `_`)
+                    self.eat()
+                    rhs = self.expr()
+                    self.eat('op', ';')
+                    stmts.append(('assign_tuple', e[1], rhs))
+                    continue
                 raise Unsupported('statement at ' + str(self.peek()))
+
+    def if_(self):
+        """`if cond { .. } [else { .. } | else if ..]` as a STATEMENT -> ('if', cond, then statements, else statements or None)"""
+        self.eat('id', 'if')
+        self.nostruct = True
+        cond = self.expr()
+        self.nostruct = False
+        self.eat('op', '{')
+        then, fin = self.block()
+        if fin is not None:
+            raise Unsupported('if branch ends in an expression')
+        self.eat('op', '}')
+        els = None
+        if self.at('else'):
+            self.eat()
+            if self.at('if'):
+                els = [self.if_()]
+            else:
+                self.eat('op', '{')
+                els, fin = self.block()
+                if fin is not None:
+                    raise Unsupported('else branch ends in an expression')
+                self.eat('op', '}')
+        return ('if', cond, then, els)
 
 
 def strip_debug_asserts(body):
@@ -425,6 +480,63 @@ def strip_debug_asserts(body):
         out += body[pos:m.start()]
         pos = j
     return out + body[pos:]
+
+
+def strip_panic_guards(body):
+    """remove `if cond { panic!(".."); }` (a guard that only panics: its negation is a PRECONDITION of the translated function,
+    stated by the bridge theorems); -> (body without the guards, [condition texts])"""
+    conds = []
+
+    def sub(m):
+        conds.append(' '.join(m.group(1).split()))
+        return ''
+    body = re.sub(r'\bif\s+([^{};]*?)\s*\{\s*panic\s*!\s*\(\s*"[^"]*"\s*\)\s*;?\s*\}', sub, body)
+    return body, conds
+
+
+def lvalue_name(lv):
+    """the variable a destructuring-assignment target writes: `x`, `arr[i]`, `arr[i].0` (None for `_`)"""
+    if lv[0] == 'var':
+        return None if lv[1] == '_' else lv[1]
+    if lv[0] == 'index' and lv[1][0] == 'var':
+        return lv[1][1]
+    if lv[0] == 'field' and lv[2] == 0 and lv[1][0] == 'index' and lv[1][1][0] == 'var':
+        return lv[1][1][1]
+    raise Unsupported('assignment target ' + str(lv[0]))
+
+
+def assigned_vars(stmts, acc=None, local=None):
+    """names assigned by a statement list, nested `while` / `if` bodies included, in order of first assignment; variables
+    declared by a `let` of the list itself (at any depth) are its locals and are left out"""
+    acc = [] if acc is None else acc
+    local = set() if local is None else local
+
+    def add(n):
+        if n is not None and n not in local and n not in acc:
+            acc.append(n)
+    for st in stmts:
+        k = st[0]
+        if k == 'let':
+            local.add(st[1])
+        elif k == 'lettuple':
+            local.update(st[1])
+        elif k in ('assign', 'assign_idx'):
+            add(st[1])
+        elif k == 'assign_tuple':
+            for lv in st[1]:
+                add(lvalue_name(lv))
+        elif k == 'while':
+            assigned_vars(st[2], acc, local)
+        elif k == 'if':
+            assigned_vars(st[2], acc, local)
+            if st[3]:
+                assigned_vars(st[3], acc, local)
+    return acc
+
+
+def join_lines(sep, lines):
+    """`sep.join(lines)`; an element spanning several lines (a translated `if`) keeps its relative indentation"""
+    return sep.join(l.replace('\n', sep) for l in lines)
 
 
 def free_vars(x, acc):
@@ -472,14 +584,17 @@ FN = re.compile(r'((?:\s*#\[[^\]]*\]\s*)*)\s*pub(?:\([a-z]+\))?\s+const\s+fn\s+(
 FN_PRIV = re.compile(r'((?:\s*#\[[^\]]*\]\s*)*)\s*(?:pub(?:\([a-z]+\))?\s+)?const\s+fn\s+(\w+)\s*\(([^)]*)\)\s*->\s*([^{]+)\{')
 
 
+FN_ANY = re.compile(r'((?:\s*#\[[^\]]*\]\s*)*)\s*(?:pub(?:\([a-z]+\))?\s+)?const\s+fn\s+(\w+)\s*\(([^)]*)\)\s*(?:->\s*([^{]+))?\{')
+
+
 def find_functions(src, private=False):
     """yield (attrs, name, params, ret, body)"""
-    for m in (FN_PRIV if private else FN).finditer(src):
+    for m in (FN_ANY if private == 'any' else FN_PRIV if private else FN).finditer(src):
         depth, j = 1, m.end()
         while depth and j < len(src):
             depth += {'{': 1, '}': -1}.get(src[j], 0)
             j += 1
-        yield m.group(1), m.group(2), m.group(3), m.group(4).strip(), src[m.end():j - 1]
+        yield m.group(1), m.group(2), m.group(3), (m.group(4) or '').strip(), src[m.end():j - 1]
 
 
 def parse_params(ps, self_ty):
@@ -534,6 +649,8 @@ def ty_of(t, self_ty):
     m = re.match(r'\((.*)\)$', t)
     if m:
         return tuple(ty_of(x, self_ty) for x in m.group(1).split(','))
+    if re.match(r'(mut\s+)?\[\s*Limb\s*\]$', t):
+        return 'uint'        # a slice `&[Limb]` / `&mut [Limb]`: the list of its limbs (`.len()` is `.length`)
     raise Unsupported('type ' + t)
 
 
@@ -647,6 +764,10 @@ class Gen:
             if self.self_ty == {'limb': 'Limb', 'uint': 'Uint'}[where]:
                 return (self.ns, self.sigs[name]) if name in self.sigs else (None, None)
             c = self.ext.get(where)
+            if not (c and name in c[1]):
+                for c2 in self.ext.get(where + '_more', []):      # further units holding methods of the same type
+                    if name in c2[1]:
+                        return c2[0], c2[1][name]
             return (c[0], c[1].get(name)) if c else (None, None)
         if where == 'bare' and self.self_ty in ('Limb', 'Uint'):
             # inside `impl Limb` a bare `adc(..)` is the imported free function, never the method of the same name
@@ -813,6 +934,14 @@ class Gen:
                 if ta != 'nat' or tb != 'nat':
                     raise Unsupported('index arithmetic')
                 return f'({a} + {b})', 'nat'
+            if op in ('+', '-', '*') and (want == 'nat' or self.is_nat(e, env)):
+                # index arithmetic on `Nat`s (`-` is truncated: it agrees with `usize` wherever Rust does not overflow)
+                a, ta = self.ex(e[2], env, 'nat'); b, tb = self.ex(e[3], env, 'nat')
+                if ta != 'nat' or tb != 'nat':
+                    raise Unsupported('index arithmetic')
+                return f'({a} {op} {b})', 'nat'
+            if op in ('==', '!=', '<', '>', '<=', '>=') and (self.is_nat(e[2], env) or self.is_nat(e[3], env)):
+                return f'(decide ({self.nat_cmp(e, env)}))', 'bool'
             a, ta = None, None
             # literals take the type of the other operand
             if (e[2][0] == 'lit' and not e[2][2]) or self.is_lit_var(e[2], env):
@@ -852,6 +981,13 @@ class Gen:
         if k == 'method':
             name, recv, args = e[1], e[2], e[3]
             r, tr = self.ex(recv, env)
+            if name == 'len' and tr == 'uint' and not args:
+                return f'{atom(r)}.length', 'nat'
+            if name == 'saturating_mul' and isinstance(tr, int) and len(args) == 1:
+                b, tb = self.ex(args[0], env, tr)
+                if tb != tr:
+                    raise Unsupported('saturating_mul types')
+                return (f'(if (({r}).setWidth {2 * tr} * ({b}).setWidth {2 * tr}) >>> {tr} == 0#{2 * tr} then ({r} * {b}) else (~~~0#{tr}))'), tr
             if name in ('wrapping_add', 'wrapping_sub', 'wrapping_mul'):
                 b, tb = self.ex(args[0], env, tr)
                 if tb != tr:
@@ -907,6 +1043,34 @@ class Gen:
                 return self.call(p[0], e[2], env, 'bare')
             raise Unsupported('call ' + '::'.join(p))
         raise Unsupported('expr ' + k)
+
+    def is_nat(self, e, env):
+        """an index expression: a `Nat` variable (loop counter, `let k = i + j`), `slice.len()`, `+ - *` with such an operand"""
+        k = e[0]
+        if k == 'var':
+            return e[1] in env and env[e[1]][1] == 'nat'
+        if k == 'method' and e[1] == 'len' and not e[3]:
+            return True
+        if k == 'bin' and e[1] in ('+', '-', '*'):
+            return self.is_nat(e[2], env) or self.is_nat(e[3], env)
+        return False
+
+    def nat_cmp(self, e, env):
+        """a comparison of index expressions as a lean proposition"""
+        a, ta = self.ex(e[2], env, 'nat'); b, tb = self.ex(e[3], env, 'nat')
+        if ta != 'nat' or tb != 'nat':
+            raise Unsupported('index comparison')
+        lop = {'==': '=', '!=': '≠', '<': '<', '>': '>', '<=': '≤', '>=': '≥'}[e[1]]
+        return f'{a} {lop} {b}'
+
+    def cond_prop(self, cond, env):
+        """the condition of an `if` statement as a (decidable) lean proposition"""
+        if cond[0] == 'bin' and cond[1] in ('==', '!=', '<', '>', '<=', '>=') and (self.is_nat(cond[2], env) or self.is_nat(cond[3], env)):
+            return self.nat_cmp(cond, env)
+        t, ty = self.ex(cond, env)
+        if ty != 'bool':
+            raise Unsupported('if condition of type ' + str(ty))
+        return f'{t} = true'
 
     def call(self, name, args, env, where='self'):
         ns, sig = self.lookup(name, where)
@@ -998,8 +1162,70 @@ class Gen:
                 self.bind(name, f'{atom(env[name][0])}.set {atom(ix)} {atom(t)}', 'uint', env, lines)
             elif k == 'while':
                 self.do_while(st[1], st[2], env, lines)
+            elif k == 'if':
+                self.do_if(st[1], st[2], st[3], env, lines)
+            elif k == 'assign_tuple':
+                self.do_assign_tuple(st[1], st[2], env, lines)
             else:
                 raise Unsupported('statement ' + k)
+
+    def do_assign_tuple(self, lvs, rhs, env, lines):
+        """`(lv, lv, ..) = e;`: the right-hand side first, then the targets from left to right"""
+        t, ty = self.ex(rhs, env)
+        if not isinstance(ty, tuple) or len(ty) != len(lvs) or len(lvs) < 2:
+            raise Unsupported('tuple assignment of a non-tuple')
+        self.pn += 1
+        tmp = f'p{self.pn}'
+        lines.append(f'let {tmp} := {t}')
+        for idx, lv in enumerate(lvs):
+            name = lvalue_name(lv)
+            if name is None:
+                continue
+            comp, cty = f'{tmp}{proj(idx, len(lvs))}', ty[idx]
+            if name not in env:
+                raise Unsupported('assignment to unknown ' + name)
+            if lv[0] == 'var':
+                if env[name][1] != cty or cty == 'lit':
+                    raise Unsupported(f'assignment changes the type of {name}')
+                self.bind(name, comp, cty, env, lines)
+            else:
+                ixe = lv[2] if lv[0] == 'index' else lv[1][2]
+                if env[name][1] != 'uint' or cty != ('wrap:1' if lv[0] == 'index' else 64):
+                    raise Unsupported('indexed assignment to ' + name)
+                ix, tix = self.ex(ixe, env, 'nat')
+                if tix != 'nat':
+                    raise Unsupported('index of type ' + str(tix))
+                self.bind(name, f'{atom(env[name][0])}.set {atom(ix)} {comp}', 'uint', env, lines)
+
+    def do_if(self, cond, then, els, env, lines):
+        """an `if` STATEMENT: a conditional update of every outer variable one of the branches assigns (in the order of their
+        declaration): `let p := (if c then (<then lets> (state..)) else (<else lets> (state..)))`, then the variables are
+        re-bound to the components of `p`"""
+        els = els or []
+        assigned = assigned_vars(then)
+        assigned_vars(els, assigned)
+        state = [v for v in env if v in assigned]
+        if not state or len(state) != len(assigned):
+            raise Unsupported('if statement: assigned variables')
+        if any(env[s][1] in ('lit', 'nat') for s in state):
+            raise Unsupported('if statement assigns a counter')
+        ctext = self.cond_prop(cond, env)
+        texts = []
+        for blk in (then, els):
+            e2, l2, decl, saved = dict(env), [], set(), dict(self.cenv)
+            self.run(blk, e2, l2, decl)
+            self.cenv = saved
+            if decl & set(env):
+                raise Unsupported('branch shadows an outer variable')
+            if any(e2[s][1] != env[s][1] for s in state):
+                raise Unsupported('branch changes the type of a variable')
+            l2.append('(' + ', '.join(e2[s][0] for s in state) + ')' if len(state) > 1 else e2[state[0]][0])
+            texts.append(join_lines('\n    ', l2))
+        self.pn += 1
+        tmp = f'p{self.pn}'
+        lines.append(f'let {tmp} := (if {ctext} then (\n    {texts[0]})\n  else (\n    {texts[1]}))')
+        for idx, s in enumerate(state):
+            self.bind(s, f'{tmp}{proj(idx, len(state))}' if len(state) > 1 else tmp, env[s][1], env, lines)
 
     def run_scoped(self, stmts, env, lines):
         """a loop body: its `let`s are local, its assignments to outer variables persist"""
@@ -1100,7 +1326,7 @@ class Gen:
         res = ' × '.join(lean_ty(t) for t in styp)
         text = (f'@[gen_defs] def {aux}{capb} : Nat → ' + ' → '.join(lean_ty(t) for t in styp) + f' → {res}\n'
                 + f'  | 0, {pat} => ' + (f'({pat})' if len(state) > 1 else pat) + '\n'
-                + f'  | {nvar} + 1, {pat} =>\n    ' + '\n    '.join(lines2)
+                + f'  | {nvar} + 1, {pat} =>\n    ' + join_lines('\n    ', lines2)
                 + f'\n    {self.ns}.{aux}{capa} {nvar} ' + ' '.join(env2[s][0] for s in state))
         self.aux.append(text)
         callt = f'({self.ns}.{aux}' + ''.join(f' {env[v][0]}' for v in captured) + f' {count} ' + ' '.join(env[s][0] for s in state) + ')'
@@ -1133,8 +1359,11 @@ class Gen:
         rest = body[:-1]
         assigned = []
         for st in rest:
-            if st[0] == 'while':
-                raise Unsupported('nested loop')
+            if st[0] in ('while', 'if', 'assign_tuple'):
+                # nested statements: everything assigned at any depth, minus the body's own `let`s; an inner loop becomes an
+                # auxiliary definition of its own (emitted first), called from this loop's auxiliary definition
+                assigned = assigned_vars(rest)
+                break
             if st[0] in ('assign', 'assign_idx') and st[1] not in assigned:
                 assigned.append(st[1])
         if i in assigned or not assigned or any(s not in env for s in assigned):
@@ -1216,23 +1445,32 @@ class Gen:
         res = ' × '.join(lean_ty(t) for t in styp)
         text = (f'@[gen_defs] def {aux}{capb} : Nat → Nat → ' + ' → '.join(lean_ty(t) for t in styp) + f' → {res}\n'
                 + f'  | 0, {ivar}, {pat} => {tup}\n'
-                + f'  | {nvar} + 1, {ivar}, {pat} =>\n    if {ivar} < {bound} then\n      ' + '\n      '.join(lines2)
+                + f'  | {nvar} + 1, {ivar}, {pat} =>\n    if {ivar} < {bound} then\n      ' + join_lines('\n      ', lines2)
                 + f'\n      {self.ns}.{aux}{capa} {nvar} ({ivar} + {step}) ' + ' '.join(env2[s][0] for s in state)
                 + f'\n    else {tup}')
         # the bound as seen from the caller
         bound_out, _ = self.ex(bound_e, env, 'nat')
         return text, aux, capa, bound_out
 
-    def body(self, body, env, rty):
-        """function body -> lean lines"""
+    def body(self, body, env, rty, outs=None):
+        """function body -> lean lines; `outs`: the `&mut` slice parameters of a function without a return type, whose final
+        values are the result"""
         body = re.sub(r'//[^\n]*', '', body)
         body = re.sub(r'#\[[^\]]*\]', '', body)
         body = strip_debug_asserts(body)
         body = self.take_asserts(body, env)
+        if outs:
+            body, self.guards = strip_panic_guards(body)
         pr = P(tokenize(body))
         stmts, final = pr.block()
         if pr.peek()[0] != 'eof':
             raise Unsupported('trailing tokens in body')
+        if final is None and outs:
+            lines = []
+            env = dict(env)
+            self.run(stmts, env, lines)
+            lines.append('(' + ', '.join(env[o][0] for o in outs) + ')' if len(outs) > 1 else env[outs[0]][0])
+            return lines
         if final is None:
             raise Unsupported('no final expression')
         lines = []
@@ -1336,12 +1574,22 @@ def translate_file(path, ns, self_ty, want=None, private=False, ext=None):
         if want and name not in want:
             continue
         fns.append((name, params, ret, body))
-    sigs, plist = {}, {}
+    sigs, plist, outs = {}, {}, {}
     for name, params, ret, body in fns:
         try:
             ps = parse_params(params, self_ty)
             ptys = [ty_of(t, self_ty) if n != 'self' else ('choice' if self_ty == 'ConstChoice' else ty_of('Self', self_ty)) for n, t in ps]
-            rty = ty_of(ret, self_ty)
+            mutp = [n for n, t in ps if n != 'self' and t.startswith('mut ')]
+            if not ret:
+                # no return type: the function RETURNS the final values of its `&mut` slice parameters (in parameter order)
+                if not mutp:
+                    raise Unsupported('no return type')
+                rty = tuple('uint' for _ in mutp) if len(mutp) > 1 else 'uint'
+                outs[name] = mutp
+            elif mutp:
+                raise Unsupported('`&mut` parameter and a return value')
+            else:
+                rty = ty_of(ret, self_ty)
             if any(t is None for t in ptys) or rty is None:
                 raise Unsupported('type')
             sigs[name] = (ptys, rty); plist[name] = ps
@@ -1365,8 +1613,10 @@ def translate_file(path, ns, self_ty, want=None, private=False, ext=None):
                 ln = 'self_' if n == 'self' else n
                 env[n] = (ln, t)
                 binders.append(f'({ln} : {lean_ty(t)})')
-            lines = g.body(body, env, rty)
-            out[name] = ''.join(a + '\n\n' for a in g.aux) + (f'@[gen_defs] def {name} ' + ''.join(b + ' ' for b in binders) + f': {lean_ty(rty)} :=\n  ' + '\n  '.join(lines))
+            g.guards = []
+            lines = g.body(body, env, rty, outs.get(name))
+            lines = [f'-- the source panics if: {c}' for c in g.guards] + lines
+            out[name] = ''.join(a + '\n\n' for a in g.aux) + (f'@[gen_defs] def {name} ' + ''.join(b + ' ' for b in binders) + f': {lean_ty(rty)} :=\n  ' + join_lines('\n  ', lines))
         except Unsupported as ex:
             failed[name] = str(ex)
             sigs.pop(name, None)   # callers of an untranslated function are untranslated too (detected at call)
@@ -1423,6 +1673,16 @@ FILES = [
         dict(key='uint_from', rel=['src/uint/from.rs'], ns='CB.Gen.Encoding.Uint', self_ty='Uint', generic='LIMBS',
              desc='impl<const LIMBS: usize> Uint<LIMBS>: the conversions from a primitive (64-bit configuration)',
              want=['from_u8', 'from_u16', 'from_u32', 'from_u64', 'from_u128', 'from_word', 'from_wide_word']),
+    ]),
+    # the multiplication rows: `impl Limb` of src/limb/mul.rs and the slice functions of src/uint/mul.rs (a slice = the list of
+    # its limbs; a function with `&mut [Limb]` parameters returns their final values)
+    ('MulRows.lean', ['CB.Gen.Chains', None, 'set_option linter.unusedVariables false'], [
+        dict(key='limb_mul', rel=['src/limb/mul.rs'], ns='CB.Gen.MulRows.Limb', self_ty='Limb',
+             desc='impl Limb: wrapping / saturating / wide multiplication', want=['saturating_mul', 'wrapping_mul', 'mul_wide'],
+             use=['prim']),
+        dict(key='uint_mul', rel='src/uint/mul.rs', ns='CB.Gen.MulRows', self_ty=None, private='any',
+             desc='schoolbook multiplication over limb slices: nested `while` loops, `lo`/`hi` addressed by an index test',
+             want=['schoolbook_multiplication', 'schoolbook_squaring'], limb_more=['limb_mul']),
     ]),
 ]
 
@@ -1486,7 +1746,8 @@ def main():
                     STRUCTS[sname] = (f'{ns}.{sname}', fields)
                     parts.append(stext); parts.append('')
             ext = dict(choice=reg.get('choice'), limb=reg.get('limb'), uint=reg.get('uint'),
-                       use=[reg[k] for k in u.get('use', []) if k in reg])
+                       use=[reg[k] for k in u.get('use', []) if k in reg],
+                       limb_more=[reg[k] for k in u.get('limb_more', []) if k in reg])
             try:
                 order, out, failed, sigs = translate_file(path, ns, self_ty, u.get('want'), u.get('private', False), ext)
             except (Unsupported, OSError) as ex:
